@@ -663,7 +663,7 @@ def lagging_newleader(m, w, k=1, j=2, lag=None, leader=N1, new=N2):
     return w
 
 
-def m_deposed(m, w, old=N1, new=N2, victim=N3, unnoticed=False, op='rem', pre=0, newk=1):
+def m_deposed(m, w, old=N1, new=N2, victim=N3, unnoticed=False, op='rem', pre=0, newk=1, repeat=False):
     """Membership variant of `deposed`: the cut-off old leader has appended an uncommitted
     'remove victim' (exactly one entry), the others elected `new` and committed a command."""
     w = steady(m, w, 0, old)
@@ -684,6 +684,12 @@ def m_deposed(m, w, old=N1, new=N2, victim=N3, unnoticed=False, op='rem', pre=0,
     w = beat(m, w, new, only=rest, times=2)
     if newk:
         w = submit(m, w, new, newk, only=rest)
+    if repeat:
+        # the operator's retry: the new leader appends (and commits with the rest) the same request about the same
+        # node, so the stale entry dropped on `old` and an entry replacing it concern the same node
+        w = m.do(w, ('M', new, op, victim, 'api', 'free'), ('Z', new))
+        w = m.drain(w, only=rest)
+        w = beat(m, w, new, only=rest, times=2)
     return w
 
 
